@@ -622,7 +622,15 @@ impl Kernel {
         fd
     }
 
+    /// faults are only injected into calls made inside a library call
+    pub fn armed(&self) -> bool {
+        self.in_lib.iter().any(|b| *b)
+    }
+
     fn fdalloc_fault(&mut self) -> Option<i32> {
+        if !self.armed() {
+            return None;
+        }
         self.n_fdalloc += 1;
         if let Some((n, e)) = self.faults.fdalloc {
             if n == self.n_fdalloc {
@@ -728,8 +736,10 @@ impl Kernel {
         match cmd {
             libc::F_GETFD => Ok(if self.proc(pid).fds[&fd].cloexec { libc::FD_CLOEXEC } else { 0 }),
             libc::F_SETFD => {
-                self.n_fcntl_setfd += 1;
-                if let Some((n, e)) = self.faults.fcntl_setfd {
+                if self.armed() {
+                    self.n_fcntl_setfd += 1;
+                }
+                if let (Some((n, e)), true) = (self.faults.fcntl_setfd, self.armed()) {
                     if n == self.n_fcntl_setfd {
                         self.fcount.hit("fcntl_fail");
                         return Err(e);
